@@ -226,9 +226,38 @@ func VerifC16Cache() {
 	}
 	for k := 0; k < n; k++ {
 		op := rt.Choose(8)
+		if rt.Param("alphabet", 0) == 1 {
+			// lookups, the two closers that try first, and a removal whose context the caller gives up
+			op = []int{0, 3, 5, 8}[rt.Choose(4)]
+		}
+		if rt.Param("alphabet", 0) == 2 {
+			op = []int{3, 8, 0}[k%3]
+		}
 		id := ids[rt.Choose(len(ids))]
 		k := k
 		switch op {
+		case 8:
+			go func() {
+				w.wait("start", k)
+				// a context of the harness's own: the encoder models context.WithCancel as never cancelling
+				cctx := &vC16Ctx{Context: ctx, done: make(chan struct{})}
+				go func() {
+					w.wait("cancel", k) // the caller loses patience whenever the controller says so
+					rt.Atomic(func() { cctx.gone = true })
+					close(cctx.done)
+					rt.Reach("cancelled")
+				}()
+				cur := w.current(c, id)
+				ok, rerr := c.Remove(cctx, id)
+				if rerr == context.Canceled {
+					rt.Reach("remove-gave-up")
+				}
+				w.finish(func() {
+					if ok && cur != nil && cur.inst.closeEnds > 0 {
+						w.removed[cur.inst.n] = true
+					}
+				})
+			}()
 		case 0:
 			go func() {
 				w.wait("start", k)
@@ -335,4 +364,43 @@ func VerifC16Cache() {
 		}
 	})
 	rt.Reach("cache")
+}
+
+type vC16Ctx struct {
+	context.Context
+	done chan struct{}
+	gone bool
+}
+
+func (c *vC16Ctx) Done() <-chan struct{} { return c.done }
+func (c *vC16Ctx) Err() error {
+	var g bool
+	rt.Atomic(func() { g = c.gone })
+	if g {
+		return context.Canceled
+	}
+	return nil
+}
+
+// VerifC16CtxProbe: the encoder's scheduler wakes a goroutine parked on ctx.Done() when the context is cancelled
+// (a self-test of the model the cancellable Remove relies on).
+func VerifC16CtxProbe() {
+	ctx := &vC16Ctx{Context: context.Background(), done: make(chan struct{})}
+	cancel := func() { rt.Atomic(func() { ctx.gone = true }); close(ctx.done) }
+	woke := false
+	ch := make(chan struct{})
+	go func() {
+		select {
+		case <-ch:
+		case <-ctx.Done():
+			rt.Atomic(func() { woke = true })
+		}
+	}()
+	rt.Settle()
+	cancel()
+	rt.Settle()
+	var w bool
+	rt.Atomic(func() { w = woke })
+	rt.Assert(w, "ctx-cancel-wakes-a-waiter")
+	rt.Reach("probed")
 }
